@@ -102,6 +102,44 @@ void harness::run_case(const eng::Raw& raw, eng::Ctx& ctx)
 		tc::expect_unchanged(ctx, sig, a, V);
 	}
 
+	// --- IsLangEmpty along a short history on ONE object (queries interleaved with assignment and mutation):
+	//     the answer must follow the current value, whatever was asked before
+	{
+		ref::TA cur = V;
+		VATA::ExplicitTreeAut x;
+		{ eng::LibSection ls(ctx, "history:copy"); x = a; }
+		// the other value: same rules, emptiness flipped if possible
+		ref::TA other = V;
+		if (V.empty_lang()) { auto p = V.productive(); if (!p.empty()) other.finals.insert(*p.begin()); else { other.add(0, {}, 3); other.finals.insert(3); } }
+		else other.finals.clear();
+		VATA::ExplicitTreeAut y;
+		{ eng::LibSection ls(ctx, "history:build-other"); y = lib::build(other); }
+		for (int stepNo = 0; stepNo < 7; ++stepNo) {
+			const uint32_t op = static_cast<uint32_t>(gen::mix(c.header[6], static_cast<uint64_t>(stepNo)) % 7);
+			const char* names[] = {"query-only", "copy-assign-other", "copy-assign-original", "SetStateFinal", "EraseFinalStates", "AddTransition-leaf", "move-assign-other"};
+			{
+				eng::LibSection ls(ctx, std::string("history:") + names[op]);
+				switch (op) {
+					case 1: x = y; cur = other; break;
+					case 2: x = a; cur = V; break;
+					case 3: { auto p = cur.productive(); int q = p.empty() ? 0 : *p.rbegin(); x.SetStateFinal(static_cast<size_t>(q)); cur.finals.insert(q); break; }
+					case 4: x.EraseFinalStates(); cur.finals.clear(); break;
+					case 5: { int q = cur.finals.empty() ? 1 : *cur.finals.begin(); x.AddTransition({}, lib::sym_to_lib(x.GetAlphabet(), 0), static_cast<size_t>(q)); cur.add(0, {}, q); break; }
+					case 6: { VATA::ExplicitTreeAut tmp(y); x = std::move(tmp); cur = other; break; }
+					default: break;
+				}
+			}
+			bool e;
+			{ eng::LibSection ls(ctx, "history:IsLangEmpty"); e = x.IsLangEmpty(); }
+			if (e != cur.empty_lang()) {
+				ctx.fail(std::string("empty:history:") + (e ? "false-positive" : "false-negative"),
+					std::string("IsLangEmpty answered ") + (e ? "true" : "false") + " after step " + std::to_string(stepNo) + " (" + names[op] + ") for " + cur.str());
+				break;
+			}
+			ctx.count("history_emptiness_queries");
+		}
+	}
+
 	// --- IsLangEmpty
 	{
 		bool e;
